@@ -88,13 +88,17 @@ def initial_state(tset, N, placement):
     return mcmc.coarse(net.G), [t[0] for t in tops]
 
 
-def report(res, desc, problems, prop, extra=""):
+def report(res, desc, problems, prop, extra="", step=None, ctx=None):
     for p in problems:
         pprop, key, msg, choices = p[:4]
         if pprop != prop:
             continue
+        snippet = None
+        if step is not None and ctx is not None and tuple(choices) in step.calls:
+            state, names, target, conv, sl = ctx
+            snippet = mcmc.standalone_snippet(state, names, target, conv, sl, step.calls[tuple(choices)])
         res.violation(key, f"{desc['tset']} N={desc['N']} motifs={desc['placement']} {extra}draws {choices}: {msg}",
-                      desc, choices=choices, extra=extra)
+                      desc, choices=choices, extra=extra, snippet=snippet)
 
 
 def check_configs(res, desc, state, names):
@@ -193,7 +197,7 @@ def run_instance(inst, tier):
         res.revalidated += r.rechecked
         res.count("runs_cut_at_deviation_bound", r.cut)
         res.count(f"states_explored_with_d={d}")
-        report(res, desc, r.problems, "C11")
+        report(res, desc, r.problems, "C11", step=r, ctx=(state, names, target, 0, 25))
         res.extras.append((hash(state), [hash(t) for t in r.successors]))
         if r.successors:
             res.nontrivial.add(hash(state))
@@ -211,7 +215,7 @@ def run_instance(inst, tier):
                 r1 = mcmc.explore_step(state, state, shapes0, names, target, d, search_limit=1)
                 res.executions += r1.leaves
                 res.revalidated += r1.rechecked
-                report(res, desc, r1.problems, "C11", "search_limit=1 ")
+                report(res, desc, r1.problems, "C11", "search_limit=1 ", step=r1, ctx=(state, names, target, 0, 1))
             if r.successors and nE <= (4 if tier == "quick" else 5):
                 for limit in ((1,) if tier == "quick" or nE > 4 else (1, 2)):
                     rm = mcmc.explore_step(state, state, shapes0, names, target, 0, conv_limit=limit,
@@ -219,7 +223,8 @@ def run_instance(inst, tier):
                     res.executions += rm.leaves
                     res.revalidated += rm.rechecked
                     res.count(f"multi_swap_runs_returned_limit_{limit}", rm.returned)
-                    report(res, desc, rm.problems, "C11", f"convergence_limit={limit} ")
+                    report(res, desc, rm.problems, "C11", f"convergence_limit={limit} ", step=rm,
+                           ctx=(state, names, target, limit, 25))
                     res.flags.add("multi-swap")
         check_configs(res, desc, state, names)
         if len(r.successors) >= 3 and not res.samples:
